@@ -360,7 +360,7 @@ theorem step_last (O : Oracles) (f : Format) (s : List Nat) (len c idx : Nat) (s
 /-! ### the loop over the items -/
 
 /-- the part of the parse state that `finish` reads -/
-def St.data (st : St) : Int × Int × Int × Int × Int × Int × Int × Int × Int × TS × Bool × Option Dur × Option Int :=
+def St.data (st : St) : Int × Int × Int × Int × Int × Int × Int × Int × Int × TS × Bool × Option DoyV × Option Int :=
   (st.y, st.mo, st.d, st.h, st.mi, st.s, st.ns, st.oh, st.om, st.ts, st.offNeg, st.doy, st.wd)
 
 theorem finish_data (st st' : St) (h : st.data = st'.data) : finish st = finish st' := by
@@ -1342,9 +1342,9 @@ def textZ (F : Flds) (itL : Item) (zs : List Nat) : List Item → List Nat
   | it :: r => numText F it ++ it.sepText ++ textZ F itL zs r
 
 /-- the data of the final state: the stored fields, the hours and minutes of the offset, its sign -/
-def zData (d : Int × Int × Int × Int × Int × Int × Int × Int × Int × TS × Bool × Option Dur × Option Int)
+def zData (d : Int × Int × Int × Int × Int × Int × Int × Int × Int × TS × Bool × Option DoyV × Option Int)
     (hh mm : Int) (neg : Bool) :
-    Int × Int × Int × Int × Int × Int × Int × Int × Int × TS × Bool × Option Dur × Option Int :=
+    Int × Int × Int × Int × Int × Int × Int × Int × Int × TS × Bool × Option DoyV × Option Int :=
   (d.1, d.2.1, d.2.2.1, d.2.2.2.1, d.2.2.2.2.1, d.2.2.2.2.2.1, d.2.2.2.2.2.2.1, hh, mm,
    d.2.2.2.2.2.2.2.2.2.1, neg, d.2.2.2.2.2.2.2.2.2.2.2.1, d.2.2.2.2.2.2.2.2.2.2.2.2)
 
